@@ -188,9 +188,10 @@ def run(ck):
     ch = cg.path_to_ext([S + "common::verify"], NONDET)
     ck.ob("EFF", S + "common::verify", "no-nondeterminism", ch is None, "verify reaches no randomness" if ch is None else " -> ".join(ch), "")
 
-    narrowing_len_sweep(ck, crate("rs", "concordium_base"), re.compile(r"concordium_base::sigma_protocols::"), re.compile(r"(verify|extract_commit_message)[a-z_0-9]*(::\\{closure#\\d+\\})*$"))
+    narrowing_len_sweep(ck, crate("rs", "concordium_base"), re.compile(r"concordium_base::sigma_protocols::"), re.compile(r"(verify|extract_commit_message)[a-z_0-9]*(::\{closure#\d+\})*$"))
 
-    eq_polarity_sweep(ck, crate("rs", "concordium_base"), re.compile(r"concordium_base::sigma_protocols::"), re.compile(r"(verify|extract_commit_message)[a-z_0-9]*(::\\{closure#\\d+\\})*$"))
+    eq_polarity_sweep(ck, crate("rs", "concordium_base"), re.compile(r"concordium_base::sigma_protocols::"), re.compile(r"(verify|extract_commit_message)[a-z_0-9]*(::\{closure#\d+\})*$"))
+    rejecting_checks_floor(ck, crate("rs", "concordium_base"), re.compile(r"concordium_base::sigma_protocols::"), re.compile(r"(verify|verifier|validate|check|extract_commit_message)[a-z_0-9]*(::\{closure#\d+\})*$"), "C07")
 
 
 def freeze():
